@@ -62,6 +62,18 @@ pub fn b_vol() -> Vec<Bar> {
     v
 }
 
+/// 5 bars for MoneyFlowIndex: typical prices 1, 2, 2 (a different bar with the
+/// same typical price), 3, 1 with volumes 1 / 2 - equal-TP neighbours, rises and falls
+pub fn b_mfi() -> Vec<Bar> {
+    vec![
+        Bar::hlcv(1.0, 1.0, 1.0, 1.0),
+        Bar::hlcv(2.0, 2.0, 2.0, 1.0),
+        Bar::hlcv(3.0, 1.0, 2.0, 2.0),
+        Bar::hlcv(3.0, 3.0, 3.0, 1.0),
+        Bar::hlcv(1.5, 0.5, 1.0, 2.0),
+    ]
+}
+
 /// 8 bars whose five fields are pairwise distinct and vary independently
 /// (not valid OHLC).
 pub fn b_free() -> Vec<Bar> {
